@@ -95,6 +95,19 @@ def run(ctx):
         c["lookups"] = [(x, h) for x in far + [0, 5] for h in (0, 1, nt_ // 2, nt_ - 2, nt_ - 1, nt_)]
         cases.append(c)
     _tempo.judge(ctx, cases, "C11", "very long tempo maps", lookups=_lookups)
+    # maps whose LAST tempo is zero, with nothing at or after it: the library returns such a chart, and every query governed by
+    # the zero tempo raises (C15).  "The same ... whatever starting hint is supplied" then means the same REFUSAL: a query on
+    # the zero marker's own tick hinted with its own index must not suddenly answer.
+    cases = []
+    for k in range(ctx.pick(40, 600)):
+        res, tempo, pts = tm.seeded_map(r, max_segments=r.choice([1, 2, 3, 8]))
+        T = max(pts + [tempo[-1][0]]) + r.choice([1, 2, 96, 5000])
+        base = tm.chart_case_from_map(r, f"C11-z{k}", res, tempo, pts)
+        base["sync"] = [x for x in base["sync"] if not (x[0] != "B" and x[1] >= T)] + [("B", T, 0)]
+        nb = len(tempo) + 1
+        base["lookups"] = [(t, h) for t in (T - 1, T, T + 1, T + 100000, 0, tempo[-1][0]) for h in range(0, nb + 2)]
+        cases.append(base)
+    _tempo.judge(ctx, cases, "C11", "maps ending in a zero tempo that governs nothing", lookups=_lookups)
     if ctx.tier == "thorough":
         # bonus: the hinted forward scan is correct for EVERY map of <= 5 tempo events with unbounded ticks, every tick
         # and every hint (Apalache, spec/apalache/LookupScan.tla).  Recorded in the evidence; nothing depends on it.
